@@ -9,6 +9,7 @@ import (
 	"fmt"
 	"os"
 	"runtime"
+	"slices"
 	"sort"
 	"strings"
 )
@@ -198,6 +199,8 @@ type Sched struct {
 	crash         string
 	mainReturned  bool
 	draining      bool
+	enBuf         []*Thread
+	keyBuf        []uint64
 	mainClock     int64
 }
 
@@ -311,7 +314,8 @@ func Where() string { return caller() }
 // scheduling
 
 func (s *Sched) enabledThreads(from *Thread) []*Thread {
-	var out []*Thread
+	out := s.enBuf[:0]
+	defer func() { s.enBuf = out }()
 	if from != nil && !from.done && (from.guard == nil || from.guard()) {
 		out = append(out, from)
 	}
@@ -516,7 +520,7 @@ func (s *Sched) FreeChoice(n int, kind uint8) int {
 type key struct{ a, b uint64 }
 
 func (s *Sched) stateKey() key {
-	hs := make([]uint64, 0, len(s.threads)+len(s.timers)+4)
+	hs := s.keyBuf[:0]
 	for _, t := range s.threads {
 		x := mix(t.id, t.hb)
 		if t.done {
@@ -524,19 +528,20 @@ func (s *Sched) stateKey() key {
 		}
 		hs = append(hs, x)
 	}
-	sort.Slice(hs, func(i, j int) bool { return hs[i] < hs[j] })
+	slices.Sort(hs)
 	var a, b uint64 = 0x1234, 0x9876
 	for _, h := range hs {
 		a = mix(a, h)
 		b = mix(b^0x5555, h+1)
 	}
+	s.keyBuf = hs
 	ts := hs[:0]
 	for _, tm := range s.timers {
 		if tm.active {
 			ts = append(ts, mix(mix(tm.obj.id, tm.obj.hb), uint64(tm.deadline)))
 		}
 	}
-	sort.Slice(ts, func(i, j int) bool { return ts[i] < ts[j] })
+	slices.Sort(ts)
 	for _, h := range ts {
 		a = mix(a, h^0x7171)
 		b = mix(b, h)
@@ -550,7 +555,7 @@ func (s *Sched) stateKey() key {
 			cs = append(cs, mix(mix(c.obj.id, c.obj.hb), uint64(len(c.buf))))
 		}
 	}
-	sort.Slice(cs, func(i, j int) bool { return cs[i] < cs[j] })
+	slices.Sort(cs)
 	for _, h := range cs {
 		a = mix(a, h^0xc4a7)
 		b = mix(b, h+3)
